@@ -3,7 +3,7 @@
    maps, bookkeeping, table keyed), Bits.v, Grouping.v; this file adds statements that combine them. *)
 From Coq Require Import ZArith List Bool Lia Permutation.
 From FV Require Import Lib.RustInt C18.Model.
-From FV Require Export C18.GkProofs C18.Runs C18.GkProofs2 C18.Bits C18.Grouping.
+From FV Require Export C18.GkProofs C18.Runs C18.GkProofs2 C18.Bits C18.Grouping C18.Partition.
 Import ListNotations.
 Open Scope Z_scope.
 
@@ -75,4 +75,29 @@ Proof.
       destruct (lookup f t0), (Z.testbit fl0 0); try discriminate;
         match type of Hr with context [dec ?a ?b ?c ?d] => destruct (dec a b c d) end; try discriminate; eapply IH; eauto. }
   eapply (G _ 0%nat [] [] _ (fun K => K)); eauto.
+Qed.
+
+(* CFF / CFF2: the charstrings INDEX is rebuilt from the builder output: everything before the INDEX is
+   copied, count is kept, offSize = width of the chosen type, offsets 1-based, then the data *)
+Lemma patch_cff_inv cw tg c2 f views maxgid adds :
+  patch_cff cw tg c2 f views maxgid = inr adds ->
+  exists cs_off tbl count offsz T' os ds,
+    ift_charstrings_offset f c2 = Some cs_off /\ lookup f tg = Some tbl /\
+    uN_at cw (skipn (Z.to_nat cs_off) tbl) 0 = Some count /\ uN_at 1 (skipn (Z.to_nat cs_off) tbl) cw = Some offsz /\
+    1 <= offsz <= 4 /\ count = maxgid + 1 /\
+    patch_offset_array views tg
+      (map (fun x => x - 1) (chunks (Z.to_nat offsz) (Z.to_nat (count + 1)) (skipn (Z.to_nat (cw + 1)) (skipn (Z.to_nat cs_off) tbl))))
+      (skipn (Z.to_nat (cw + 1 + (count + 1) * offsz)) (skipn (Z.to_nat cs_off) tbl))
+      (ot_cff offsz) cff_types (2, 1) maxgid = inr (T', os, ds) /\
+    adds = [(tg, firstn (Z.to_nat cs_off) tbl ++ to_be (Z.to_nat cw) count ++ [ot_width T'] ++ encode_offsets T' os ++ ds)].
+Proof.
+  unfold patch_cff. destruct (ift_charstrings_offset f c2) as [cs_off|] eqn:E1; [|discriminate].
+  destruct (lookup f tg) as [tbl|] eqn:E2; [|discriminate].
+  destruct (len tbl <? cs_off); [discriminate|].
+  destruct (uN_at cw _ 0) as [count|] eqn:E3; [|discriminate]. destruct (uN_at 1 _ cw) as [offsz|] eqn:E4; [|discriminate].
+  destruct (len _ <? _); [discriminate|].
+  destruct (Z.ltb_spec offsz 1); cbn [orb]; [discriminate|]. destruct (Z.ltb_spec 4 offsz); [discriminate|].
+  destruct (Z.eqb_spec count (maxgid + 1)); cbn [negb]; [|discriminate].
+  destruct (patch_offset_array _ _ _ _ _ _ _ _) as [?|[[T' os] ds]] eqn:E5; cbn [bind]; [discriminate|].
+  intros HH; inversion HH; subst adds. exists cs_off, tbl, count, offsz, T', os, ds. repeat split; auto; lia.
 Qed.
